@@ -76,9 +76,13 @@ QN = [[1.5, 1.0, -2.5], [-0.75, 10.5, 2.0], [0.25, -1.0, 13.5], [3.0, 0.0, -20.5
 IQ = ([[0, -1, 2], [13, 1, -22]], [[1, 0, 3], [-2, 12, 1]])
 
 
-def _has_ties(es, ns):
-    """True if some query point has two data points at exactly the same distance (KNeighbors is then order dependent)."""
+def _has_ties(es, ns, at_data=False):
+    """True if some query point has two data points at exactly the same distance (KNeighbors is then order dependent).
+    at_data: the data points themselves are queries too (a chain evaluates its neighbour step at the data to form residuals)."""
     qs = [(x, y) for re, rn in zip(QE, QN) for x, y in zip(re, rn)] + [(float(x), float(y)) for re, rn in zip(*IQ) for x, y in zip(re, rn)]
+    if at_data:
+        qs += [(float(x), float(y)) for x, y in zip(es, ns)] + [(float(x) - 0.375, float(y)) for x, y in zip(es, ns)] + \
+              [(float(x), float(y) + 0.25) for x, y in zip(es, ns)]
     for qx, qy in qs:
         d = [(qx - e) ** 2 + (qy - n) ** 2 for e, n in zip(es, ns)]
         if len(set(d)) != len(d):
@@ -108,7 +112,7 @@ def rand_case(rng, kind=None):
                                "knn-max", "chain-trend-knn", "chain-knnmax-trend", "vector-trend"])
     n = rng.choice([6, 8, 9, 10, 12])
     es, ns = pts(rng, n)
-    while ((kind.startswith("knn") or "knn" in kind) and _has_ties(es, ns)) or (kind in ("linear", "cubic") and _degenerate(es, ns)):
+    while ((kind.startswith("knn") or "knn" in kind) and _has_ties(es, ns, at_data=kind.startswith("chain"))) or (kind in ("linear", "cubic") and _degenerate(es, ns)):
         es, ns = pts(rng, n)
     d1 = [float(rng.randint(-20, 20)) for _ in range(n)]
     d2 = [float(rng.randint(-20, 20)) for _ in range(n)]
